@@ -81,9 +81,15 @@ def generate(wd, mode, p, sd):
         with open(cpath) as fh:
             data = json.load(fh)
         return data["behaviours"], data["stats"]
-    cfgp = C.write_cfg(os.path.join(wd, "gen_%s.cfg" % mode), consts, subst, constraints=["Constr"], view="View")
+    sets = mode == "full" and p["Depth"] == 1
+    cfgp = C.write_cfg(os.path.join(wd, "gen_%s.cfg" % mode), consts, subst, constraints=["ConstrSets" if sets else "Constr"],
+                       view="View")
     res = C.run_tlc("DictList", cfgp, wd, timeout=1800)
-    behs = res["printed"]
+    if sets:        # one line per start state with the set of its enabled operations -> the one-step behaviours
+        behs = [{"start": line["start"], "der0": line["der0"], "walk": 0, "ops": [op]}
+                for line in res["printed"] for op in line["opset"]]
+    else:
+        behs = res["printed"]
     stats = {"generated": res["generated"], "distinct": res["distinct"], "cmd": res["cmd"], "wall_s": res["wall_s"]}
     os.makedirs(os.path.dirname(cpath), exist_ok=True)
     tmp = cpath + ".tmp%d" % os.getpid()
@@ -261,6 +267,8 @@ class Driver:
                     l[op["i"]] = self.O(op["x"])
                 elif kind == "setslice":
                     l[sl] = [self.O(o) for o in op["xs"]]
+                elif kind == "setslice2":
+                    l[slice(sl.start, sl.stop, 2)] = [self.O(o) for o in op["xs"]]
                 elif kind == "delslice":
                     del l[sl]
                 elif kind == "sort":
@@ -449,7 +457,7 @@ def run(prop, tier, replay=None):
             rep.coverage["trace_checker_cmd"] = cmd
     missing = [k for k in ["append", "add", "extend", "iadd", "union", "insert", "pop", "poplast", "delitem", "remove",
                            "removeid", "isub", "setitem", "setslice", "delslice", "sort", "sortrev", "reverse",
-                           "getslice", "query", "copy", "pickle", "addop", "subop", "getitem", "rename", "swap", "deepcopy"]
+                           "getslice", "query", "copy", "pickle", "addop", "subop", "getitem", "rename", "swap", "deepcopy", "setslice2"]
                if not per_action.get(k)]
     if missing:
         raise C.Machinery("vacuity: actions never exercised: %s" % missing)
